@@ -27,7 +27,7 @@ fn box_seed_ok(seed: &[u8]) -> Result<bool, String> {
         let sk: [u8; 32] = h[..32].try_into().unwrap();
         let pk = sodium::scalarmult_base(&sk);
         let (dpk, dsk) = crypto_box_seed_keypair(seed);
-        let (mut ipk, mut isk) = ([0u8; 32], [0u8; 32]);
+        let (mut ipk, mut isk) = ([0xC3u8; 32], [0xC3u8; 32]);
         crypto_box_seed_keypair_inplace(&mut ipk, &mut isk, seed);
         let kp: KeyPair<SB<32>, SB<32>> = KeyPair::from_seed(&seed.to_vec());
         let kv: KeyPair<Vec<u8>, Vec<u8>> = KeyPair::from_seed(&seed.to_vec());
@@ -137,8 +137,8 @@ pub fn run() -> i32 {
             let wb = sodium::scalarmult_base(s);
             v.push(("from-secret-key", k.public_key.as_slice() == &wb[..] && k.secret_key.as_slice() == &s[..] && kv.public_key == wb));
             // ed25519 -> x25519
-            let mut xpk = [0u8; 32];
-            let mut xsk = [0u8; 32];
+            let mut xpk = [0xC3u8; 32];
+            let mut xsk = [0xC3u8; 32];
             let rpk = crypto_sign_ed25519_pk_to_curve25519(&mut xpk, &spk);
             crypto_sign_ed25519_sk_to_curve25519(&mut xsk, &ssk);
             let wxpk = sodium::ed_pk_to_curve(&wpk);
@@ -182,8 +182,8 @@ pub fn run() -> i32 {
                     seen[p][*b as usize] = true;
                 }
                 let r = guarded(AssertUnwindSafe(|| {
-                    let mut xpk = [0u8; 32];
-                    let mut xsk = [0u8; 32];
+                    let mut xpk = [0xC3u8; 32];
+                    let mut xsk = [0xC3u8; 32];
                     let rpk = crypto_sign_ed25519_pk_to_curve25519(&mut xpk, &wpk);
                     crypto_sign_ed25519_sk_to_curve25519(&mut xsk, &wsk);
                     rpk.is_ok() && Some(xpk) == sodium::ed_pk_to_curve(&wpk) && xsk == sodium::ed_sk_to_curve(&wsk) && sodium::scalarmult_base(&xsk) == xpk
@@ -268,7 +268,7 @@ pub fn run() -> i32 {
         for (nm, s) in [("ed_to_x(s1)", s1), ("ed_to_x(s2)", s2)] {
             t.push((nm, Box::new(move || {
                 let (pk, sk) = sodium::sign_seed_keypair(&s);
-                let (mut xp, mut xs) = ([0u8; 32], [0u8; 32]);
+                let (mut xp, mut xs) = ([0xC3u8; 32], [0xC3u8; 32]);
                 let _ = crypto_sign_ed25519_pk_to_curve25519(&mut xp, &pk);
                 crypto_sign_ed25519_sk_to_curve25519(&mut xs, &sk);
                 [xp, xs].concat()
